@@ -271,7 +271,7 @@ def sweep_scripts(rng, gen, thorough):
 def random_call(rng, inst):
     """a public control call: what the object model shows comes from the console's reports only, so a call changes nothing"""
     acs = [a["id"] for a in inst["acs"]]
-    zs = sorted(inst["zones"])
+    zs = sorted(z for ac in inst["acs"] for z in ac["zones"] if z in inst["zones"])      # (zones an application can reach: those of some AC)
     k = rng.random()
     a = rng.choice(acs)
     if k < 0.3:
